@@ -8,7 +8,7 @@ from .gen import pick
 PROPERTY = "C07"
 C07_APPS = [a for a in sorted(APPS) if a not in ("iter", "borrow", "any_iter")]
 CLOSES_UNADVANCED = ("chain", "chain2")
-KINDS = ("agen", "acls", "bare")
+KINDS = ("agen", "acls", "bare", "afull")
 NOPS = 7
 
 
@@ -28,7 +28,7 @@ class Counting:
 
 
 def _pre(n, o0, o1, o2, o3, o4, t, j, kind):
-    ok = 0 <= n <= P("N", 3) and 0 <= j <= 3 and 0 <= kind <= 2 and 0 <= t < len(C07_APPS) + len(AGG_APPS)
+    ok = 0 <= n <= P("N", 3) and 0 <= j <= 3 and 0 <= kind <= 3 and 0 <= t < len(C07_APPS) + len(AGG_APPS)
     for o in (o0, o1, o2, o3, o4):
         ok = ok and 0 <= o < NOPS
     if P("kind") is not None:
@@ -171,7 +171,7 @@ def _grid():
     NT = len(C07_APPS) + len(AGG_APPS)
     for _ in range(300):
         t = P("t") if P("t") is not None else rnd.randrange(NT)
-        kind = P("kind") if P("kind") is not None else rnd.randrange(3)
+        kind = P("kind") if P("kind") is not None else rnd.randrange(4)
         o0 = P("o0") if P("o0") is not None else rnd.randrange(NOPS)
         out.append(tuple([rnd.randint(0, P("N", 3))] + [rnd.choice([-1, 0, 1, 2]) for _ in range(4)] + [o0] + [rnd.randrange(NOPS) for _ in range(4)] + [t, rnd.randint(0, 3), kind]))
     return out
@@ -186,20 +186,20 @@ def jobs(tier):
     J = []
     NT = len(C07_APPS) + len(AGG_APPS)
     L = 3 if q else 4
-    for kind in range(3):
+    for kind in range(4):
         # operation sequences (the tool operation uses one representative tool, j=1) ...
         for o0 in range(NOPS):
             J.append({"module": "c07", "fn": "h_borrow", "part": {"N": 3, "n": 3, "j": 1, "L": L + 1, "kind": kind, "t": C07_APPS.index("islice2"), "o0": o0}, "timeout": T})
     # ... and every tool handed the borrowed iterator as the first operation
     for t in range(NT):
-        for kind in ((0, 1) if q else (0, 1, 2)):
+        for kind in ((0, 3) if q else (0, 1, 2, 3)):
             J.append({"module": "c07", "fn": "h_borrow", "part": {"N": 3, "L": L - 1, "kind": kind, "t": t, "o0": 6}, "timeout": T})
     return J
 
 
 LEVEL = "other"
 BOUNDS = {
-    "quick": "operation sequences of length 4 (3 items, tool operation = islice with j=1) over {next borrowed, next underlying, close borrowed, close via iter(borrowed), asend(None), re-borrow, pass to a tool (j<=3 items) then close it}; every tool of the application table (20 iterator tools, 6 aggregations) as first operation (j=0..3 items, N<=3) followed by 1 further symbolic operation and the owner draining the rest; underlying: async generator, class with aclose, bare class; N<=3 items, keys unbounded",
+    "quick": "operation sequences of length 4 (3 items, tool operation = islice with j=1) over {next borrowed, next underlying, close borrowed, close via iter(borrowed), asend(None), re-borrow, pass to a tool (j<=3 items) then close it}; every tool of the application table (20 iterator tools, 6 aggregations) as first operation (j=0..3 items, N<=3) followed by 1 further symbolic operation and the owner draining the rest; underlying: async generator, class with aclose, bare class, class with the full asend/athrow/aclose protocol; N<=3 items, keys unbounded",
     "thorough": "sequences of length 5 / tool followed by 2 operations, all three underlying kinds",
 }
 OUTSIDE = ["athrow through the handle (forwarded to the underlying iterator by design)", "concurrent use of handle and underlying iterator", "sequences longer than the bound"]
